@@ -1,0 +1,81 @@
+//go:build verif
+
+// Contracts for the deductive verifier in /verif (govc). This file contains
+// comments only and is compiled only under the "verif" build tag.
+
+package sets
+
+/*@
+// ---------------------------------------------------------------- C03: the contract of the Set interface
+// mem(s, x): x is a member of s; card(s): its cardinality; setmap(s): the abstract map the set is viewed as
+// (the map itself for maps.Set, the abstract state of the embedded sync2.Map for *sync2.Set, an abstract
+// object for any other implementation). `this` is the receiver. Every implementation in the repository is
+// proved against these clauses (`implements`); every caller of the interface sees only these clauses.
+
+func Set.Len()
+  ensures result == card(this)
+
+func Set.Has(value)
+  ensures result == mem(this, value)
+
+func Set.Add(value)
+  ensures result == !old(mem(this, value))
+  ensures forall x T :: {mem(this, x)} mem(this, x) == (old(mem(this, x)) || x == value)
+  ensures card(this) == old(card(this)) + b2i(result)
+  assigns map(setmap(this))
+
+func Set.Remove(value)
+  ensures result == old(mem(this, value))
+  ensures forall x T :: {mem(this, x)} mem(this, x) == (old(mem(this, x)) && x != value)
+  ensures card(this) == old(card(this)) - b2i(result)
+  assigns map(setmap(this))
+
+func Set.AddSet(set)
+  requires set != nil
+  ensures forall x T :: {mem(this, x)} mem(this, x) == (old(mem(this, x)) || old(mem(set, x)))
+  ensures result == card(this) - old(card(this)) && result >= 0
+  assigns map(setmap(this))
+
+func Set.RemoveSet(set)
+  requires set != nil
+  ensures forall x T :: {mem(this, x)} mem(this, x) == (old(mem(this, x)) && !old(mem(set, x)))
+  ensures result == old(card(this)) - card(this) && result >= 0
+  assigns map(setmap(this))
+
+func Set.Clone()
+  ensures result != nil && fresh(setmap(result))
+  ensures forall x T :: {mem(result, x)} mem(result, x) == mem(this, x)
+  ensures card(result) == card(this)
+
+func Set.Slice()
+  ensures len(result) == card(this) && (len(result) == 0 || fresh(result))
+  ensures forall j :: 0 <= j && j < len(result) ==> mem(this, result[j])
+  ensures forall x T :: {mem(this, x)} mem(this, x) ==> (exists j :: 0 <= j && j < len(result) && result[j] == x)
+  ensures forall i, j :: 0 <= i && i < j && j < len(result) ==> result[i] != result[j]
+
+func Set.Intersect(set)
+  requires set != nil
+  ensures result != nil && fresh(setmap(result))
+  ensures forall x T :: {mem(result, x)} mem(result, x) == (mem(this, x) && mem(set, x))
+
+func Set.Union(set)
+  requires set != nil
+  ensures result != nil && fresh(setmap(result))
+  ensures forall x T :: {mem(result, x)} mem(result, x) == (mem(this, x) || mem(set, x))
+
+func Set.SetDiff(set)
+  requires set != nil
+  ensures result != nil && fresh(setmap(result))
+  ensures forall x T :: {mem(result, x)} mem(result, x) == (mem(this, x) && !mem(set, x))
+
+func Set.SymDiff(set)
+  requires set != nil
+  ensures result != nil && fresh(setmap(result))
+  ensures forall x T :: {mem(result, x)} mem(result, x) == (mem(this, x) != mem(set, x))
+
+// Range(f): for each member exactly once, in an unspecified order, call f; stop at the first false.
+// At a call site this is a spec loop over the ghost set `visited` with the caller's `rangecall` invariant.
+func Set.Range(f)
+  mode rangeloop
+  opt rangemap setmap(this)
+@*/
